@@ -159,13 +159,26 @@ def run_check(pid: str, modname: str, tier: str, level: str, argv=()):
     with ctx.Pool(nproc) as pool:
         st_async = pool.apply_async(_selftest_worker, (3 if tier == "quick" else 1,))
         tw_async = pool.map_async(_worker, twin_jobs) if twin_jobs else None
-        for out, fs in pool.imap_unordered(_worker, jobs):
+        # watchdog: a worker that dies or dead-locks must not hang the check
+        stall = int(os.environ.get("PV_STALL_TIMEOUT", "1500"))
+        it = pool.imap_unordered(_worker, jobs)
+        stalled = None
+        for _ in range(len(jobs)):
+            try:
+                out, fs = it.next(timeout=stall)
+            except mp.TimeoutError:
+                stalled = f"no worker result for {stall} s ({len(results)} of {len(items)} items done)"
+                break
             results.extend(out)
             funcs.update(fs)
+        if stalled:
+            pool.terminate()
+            print("HARNESS-ERROR:", stalled, file=sys.stderr)
+            return 2
         if tw_async is not None:
-            for out, fs in tw_async.get():
+            for out, fs in tw_async.get(timeout=stall):
                 twin_results.extend(out)
-        selftest = st_async.get()
+        selftest = st_async.get(timeout=stall)
 
     errors = [r for r in results + twin_results if r.status == "error"]
     harness_errors = []
